@@ -1,11 +1,12 @@
 import CnlProofs.Exp2
 /-!
-# Kernel-checked tables: EVERY input of every 8-bit format with an integer bit (exponents −7…+2 unsigned, −6…0 signed)
+# Kernel-checked tables: EVERY input of every 8-bit format with an integer bit (exponents −7…+2 unsigned, −6…+2 signed)
 
 `tab_<fmt> : sweep f (boundOK f B) 0 256 = true` — on all 256 representations: if the true `⌊2^x·2^(−E)⌋` fits the type,
 the model returns a value (no undefined behaviour) within `B` units of it.  `B` is the exact maximum: `att_<fmt>` exhibits an
-input that attains it.  (`int8_t` with exponents +1, +2 is absent: there `static_cast<Rep>(floor(x))` wraps, finding
-`C20.exp2_positive_exponent_floor_wraps`.)
+input that attains it.  (`int8_t` with exponents +1, +2: as found, `static_cast<Rep>(floor(x))` wrapped there, finding
+`C20.exp2_positive_exponent_floor_wraps`; since the repair the tables `tab_i8_p1`, `tab_i8_p2` hold, and `orig_i8_p1` records that
+the as-found definition fails the same sweep.)
 -/
 open Cnl Cnl.Exp2 Cnl.Exp2Proofs
 namespace Cnl.Exp2Tab8
@@ -45,5 +46,13 @@ theorem tab_i8_m1 : sweep ⟨8, true, -1⟩ (boundOK ⟨8, true, -1⟩ 1) 0 256 
 theorem att_i8_m1 : (List.range 256).any (fun i => attains ⟨8, true, -1⟩ 1 ((i : Int) + lowestF (Fmt.rep ⟨8, true, -1⟩))) = true := by decide +kernel
 theorem tab_i8_p0 : sweep ⟨8, true, 0⟩ (boundOK ⟨8, true, 0⟩ 1) 0 256 = true := by decide +kernel
 theorem att_i8_p0 : (List.range 256).any (fun i => attains ⟨8, true, 0⟩ 1 ((i : Int) + lowestF (Fmt.rep ⟨8, true, 0⟩))) = true := by decide +kernel
+theorem tab_i8_p1 : sweep ⟨8, true, 1⟩ (boundOK ⟨8, true, 1⟩ 1) 0 256 = true := by decide +kernel
+theorem att_i8_p1 : (List.range 256).any (fun i => attains ⟨8, true, 1⟩ 1 ((i : Int) + lowestF (Fmt.rep ⟨8, true, 1⟩))) = true := by decide +kernel
+theorem tab_i8_p2 : sweep ⟨8, true, 2⟩ (boundOK ⟨8, true, 2⟩ 1) 0 256 = true := by decide +kernel
+theorem att_i8_p2 : (List.range 256).any (fun i => attains ⟨8, true, 2⟩ 1 ((i : Int) + lowestF (Fmt.rep ⟨8, true, 2⟩))) = true := by decide +kernel
+
+/-- AS FOUND the same sweep fails on `int8_t, power<1>`: some negative input whose true result is 0 does not even yield a value -/
+theorem orig_i8_p1 : (List.range 128).any (fun i => match exp2Orig ⟨8, true, 1⟩ ((i : Int) - 128) with | .ok _ => false | _ => true) = true := by
+  decide +kernel
 
 end Cnl.Exp2Tab8
